@@ -910,8 +910,9 @@ class FlippedEncoding(LazyIndexMap):
         indices = indices.copy()
         shape = self.shape
         for a in self._axes:
+            # index `i` along a flipped axis is `size - 1 - i` in the base
             indices[:, a] *= -1
-            indices[:, a] += shape
+            indices[:, a] += shape[a] - 1
         return indices
 
     def _from_base_indices(self, base_indices):
